@@ -694,6 +694,28 @@ class SymStr:
     def capitalize(self): raise Unsupported('capitalize')
 
 
+class OpaqueStr:
+    """a string whose content the engine does not model (repr() of a symbolic string, used for messages);
+    it may be concatenated and passed around, but any attempt to look inside makes the path inconclusive"""
+    __slots__ = ('why',)
+
+    def __init__(self, why): self.why = why
+    def __add__(self, o): return self
+    def __radd__(self, o): return self
+    def __mul__(self, n): return self
+    __rmul__ = __mul__
+    def __mod__(self, a): return self
+    def _bad(self, *a, **k): raise Unsupported('content of an unmodelled string inspected (%s)' % self.why)
+    __len__ = __eq__ = __ne__ = __lt__ = __gt__ = __le__ = __ge__ = __iter__ = __getitem__ = __contains__ = __bool__ = _bad
+    __hash__ = None
+    def __str__(self): return '\ufffd'
+    def __repr__(self): return 'OpaqueStr(%s)' % self.why
+    def __format__(self, spec): return '\ufffd'
+    def __deepcopy__(self, memo): return self
+    def strip(self, *a): return self
+    lstrip = rstrip = lower = upper = replace = format = join = strip
+
+
 def bt_any(x):
     if isinstance(x, SymBool): return x.t
     if x is True or x is False: return x
